@@ -25,7 +25,7 @@ class Invalid(Exception):
 
 def evaluate(tree, env=None):
     """Own integer evaluator; raises Invalid outside the property's domain
-    (division needs non-negative operands and a non-zero divisor; shift counts 0..3).
+    (division needs non-negative operands and a non-zero divisor; shift counts 0..3 keep the values small).
     env, if given, overrides the values of names."""
     k = tree[0]
     if k == 'leaf':
@@ -48,9 +48,7 @@ def evaluate(tree, env=None):
     if op in ('<<', '>>'):
         if not 0 <= b <= 3:
             raise Invalid()
-        if a < 0 and op == '>>':
-            raise Invalid()
-        return a << b if op == '<<' else a >> b
+        return a << b if op == '<<' else a >> b       # >> of a negative value: floor, as integer arithmetic has it
     raise ValueError(op)
 
 
